@@ -24,6 +24,7 @@ structure Row where
   ts : Int
   c : Int
   v : Int
+  w : Option Int := some 1     -- `none`: the column holds a string, every comparison with it raises an evaluation error
   deriving Repr, Inhabited
 
 /-! ### pattern tokens (prefix form of `types.PatternNode`) -/
@@ -53,7 +54,7 @@ partial def parsePat : List String → Option (PNode × List String)
 side through `expr`; NULL operand ⇒ the comparison is not true) -/
 
 inductive Term where
-  | v | c | k (n : Int)
+  | v | c | w | k (n : Int)
   | prev (n : Nat)                 -- PREV(v, n)
   | sum (a : Option Sym)           -- SUM(v) / SUM(X.v)
   | cnt (a : Option Sym)           -- COUNT(*) / COUNT(X.*)
@@ -82,6 +83,7 @@ def parseSymOpt (s : String) : Option (Option Sym) :=
 def parseTerm (s : String) : Option Term :=
   if s == "v" then some .v
   else if s == "c" then some .c
+  else if s == "w" then some .w
   else if s == "first" then some .first
   else if s.startsWith "k" then (dropStr s 1).toInt?.map .k
   else if s.startsWith "pv" then (dropStr s 2).toNat?.map .prev
@@ -108,6 +110,7 @@ def scope (hist : List (Row × Sym)) (cand : Row) (lbl : Sym) : List (Row × Sym
 def evalTerm (hist : List (Row × Sym)) (cand : Row) (lbl : Sym) : Term → Option Int
   | .v => some cand.v
   | .c => some cand.c
+  | .w => cand.w
   | .k n => some n
   | .prev n => if n == 0 || hist.length < n then none else (hist[hist.length - n]?).map (·.1.v)
   | .sum a => some (((scope hist cand lbl).filter (fun x => labelOK a x.2)).foldl (fun s x => s + x.1.v) 0)
@@ -338,10 +341,14 @@ def obsOf (rows : List Row) (m : RawMatch) : Except String Spec.Obs :=
 /-! ### the case -/
 
 def parseRow : List String → Option Row
-  | ["row", part, id, ts, c, v] => do
+  | "row" :: part :: id :: ts :: c :: v :: rest => do
     let p ← unhex part
     let id ← id.toNat?; let ts ← ts.toInt?; let c ← c.toInt?; let v ← v.toInt?
-    some { id := id, part := String.ofList p, ts := ts, c := c, v := v }
+    let w : Option Int := match rest with
+      | "x" :: _ => none
+      | t :: _ => t.toInt?
+      | [] => some 1
+    some { id := id, part := String.ofList p, ts := ts, c := c, v := v, w := w }
   | _ => none
 
 def distinctKeys (rows : List Row) : List String :=
@@ -401,6 +408,7 @@ def run (c : Case) : CaseOut := Id.run do
             held := held ++ lines
             obs := obs ++ [[]]
           else obs := obs ++ [lines]
+      | ["nap"] => obs := obs ++ [[]]   -- wall-clock time passes: nothing happens (timestamps are small numbers, not epochs)
       | ["flush"] =>
         if !created then obs := obs ++ [[["no-engine"]]] else
         let (e', out) := step mc eng (Op.flush : Op String Row)
